@@ -23,6 +23,7 @@ static const char *const ctr_names[VF_NCTR] = {
 };
 
 static int P_C03, P_C10, P_C05;
+static bool LIGHT;     /* C05, 2^32 sweep only: compare the writer output with the reference encoding; the parse-back of these very bytes is C03's sweep */
 static vf_doc *D;
 static vf_live L;
 static const char *LABEL;
@@ -280,6 +281,7 @@ static bool traverse_c05(void)
         while (out[i] == D->bytes[i]) i++;
         return fail("bytes", "writer output differs from the canonical encoding at offset %zu (%02x vs %02x)", i, out[i], D->bytes[i]);
     }
+    if (LIGHT) return true;
     int need = needed_depth(D);
     if (isobj && need <= 10 && !binson_writer_verify(&w)) return fail("writer-verify", "binson_writer_verify rejects the writer's own output (nesting %d)", need);
     /* the parser must accept it and decode the values written */
@@ -406,6 +408,7 @@ static void value_families(void)
         for (int64_t c = INT32_MIN; c <= INT32_MAX; c += 1 << 20) {
             if (!take()) continue;
             if (vf_deadline_passed()) return;
+            LIGHT = P_C05 != 0;
             for (int64_t v = c; v < c + (1 << 20); v++) {
                 /* one carrier form per value in the 2^32 sweep (the form rotates), all three forms elsewhere */
                 char label[64];
@@ -416,6 +419,7 @@ static void value_families(void)
                 snprintf(label, sizeof label, "integer carrier %lld", (long long) v);
                 carrier_end(label);
             }
+            LIGHT = false;
         }
     } else {
         for (int64_t c = -65536; c <= 65535; c += 4096) {
